@@ -80,7 +80,7 @@ CLAIMED = {
          "3 / C18"),
  "C19": ("runtime monitor: orthonormality / handedness identities, variance definition, convention-free weight clauses and rigid-motion equivariance",
          "Exploration: SvdBasis2/SvdBasis3::from_points on generic, planar, collinear and coincident point sets at offsets to 1e3, unweighted / equal / 0-1 / arbitrary weights (centre = weighted mean, orthonormal basis, non-increasing singular values, sv^2/n = variance along the axis, round trip through the basis, rank, equivariance, weight scaling, subset reproduction); the six two-vector frame constructors plus iso3_from_basis / iso3_from_xyo / iso2_from_basis on vector pairs of any length, skew down to 1e-6 rad, negated axes (half-turn frames), parallel and zero inputs; Plane3 from three points / point+normal / surface point, projection, inversion, ray-plane distance.",
-         "Basis vectors compared up to sign and only where singular values are separated; frame constructor inputs with |a x b| < 1e-8 that are not exactly degenerate are not judged.",
+         "Basis vectors compared up to sign and only where singular values are separated; frame constructor inputs with |a x b| < 1e-8 that are not exactly degenerate are not judged. Known finding: minor axes of strongly anisotropic weighted sets are returned about 1e-3 rad off by the dependency (own input class).",
          "3 / C19"),
  "C20": ("runtime monitor: the input mesh is its own oracle (edge lengths, orientation, pairwise distances); metamorphic twins under rigid motion and relabelling; topological classification of the generated inputs for the rejection clause; barycentric oracle for the UV round trip",
          "Exploration: planar disks (jittered grids with random diagonals, strips, fans with and without a centre vertex, star-shaped, L- and U-shaped regions; 1..5000 faces) with permuted vertex labels, shuffled faces, rotated triples, optionally all faces reversed, random scale and 3-D pose: Ok, one finite position per vertex, every edge keeps its length, every face positive, random vertex pairs keep their distance; curved disks (height fields, spherical caps) and planar ones flattened before and after a rigid motion (pairwise distances and orientation agree to 1e-9) and after relabelling (accepted alike); non-disks (closed, annulus, two holes, two disks, fin, punctured torus, disk plus closed component, disks pinched at a vertex) must give Err without panic; meshes built with new_with_uv from the layout: uv_with_tol on and off the surface (UV = barycentric image, depth = signed offset) and uv_to_3d (surface point, face normal).",
